@@ -71,7 +71,8 @@ type variantCand struct {
 type RunCfg struct {
 	disabled     map[string]bool            // loopKey|candName dropped by Houdini
 	modKinds     map[string]map[string]bool // loopKey -> kinds written in the loop
-	fullHavoc    map[string]bool            // loopKey|kind : writes reach pre-loop objects
+	fullHavoc    map[string]bool            // loopKey|kind : writes reach objects the caller handed in
+	fnHavoc      map[string]bool            // loopKey|kind : writes reach pre-loop objects, all allocated by the enclosing function
 	unroll       map[string]int             // loopKey -> K (bounded stand-in / full unroll)
 	unwindAssert map[string]bool            // loopKey: prove that K iterations suffice (complete)
 	unrollAll    int                        // != 0: every loop without an entry in unroll is unrolled this often (-1: zero times)
@@ -88,7 +89,7 @@ type RunCfg struct {
 }
 
 func newRunCfg() *RunCfg {
-	return &RunCfg{disabled: map[string]bool{}, modKinds: map[string]map[string]bool{}, fullHavoc: map[string]bool{},
+	return &RunCfg{disabled: map[string]bool{}, modKinds: map[string]map[string]bool{}, fullHavoc: map[string]bool{}, fnHavoc: map[string]bool{},
 		unroll: map[string]int{}, unwindAssert: map[string]bool{}, noVariant: map[string]bool{}, maxLen: map[string]int64{}, paramWrites: map[string]string{}, strict: true, maxDepth: 14, useSummary: map[string]bool{}}
 }
 
@@ -121,7 +122,7 @@ type Exec struct {
 	bytesEqHook   func(a, b SliceV) *Term
 	randInts      []*Term
 	randIntFail   []*Term // reach ∧ failed, per crypto/rand.Int call
-	cur           *Term // reach condition of the instruction being executed
+	cur           *Term   // reach condition of the instruction being executed
 	modes         []*contractMode
 	summariesUsed map[string]bool
 	bindAny       bool
@@ -186,7 +187,10 @@ func (ex *Exec) assumeGlobal(t *Term) {
 	ex.hyps = append(ex.hyps, t)
 	if traceHyp != "" {
 		if str := t.StringLimit(400000); strings.Contains(str, traceHyp) {
-			if len(str) > 600 { str = str[len(str)-600:] }; fmt.Fprintf(os.Stderr, "HYP[%d] ...%s\n", len(ex.hyps)-1, str)
+			if len(str) > 600 {
+				str = str[len(str)-600:]
+			}
+			fmt.Fprintf(os.Stderr, "HYP[%d] ...%s\n", len(ex.hyps)-1, str)
 		}
 	}
 }
@@ -275,8 +279,14 @@ func (ex *Exec) noteWrite(k *kindInfo, guard, ref, n *Term) {
 		}
 		fk := l.key + "|" + k.name
 		if !ex.cfg.fullHavoc[fk] {
-			// frame candidate: the written object is fresh since loop entry
-			goal := Implies(And(guard, Gt(n, Int(0))), Gt(ref, l.water))
+			// frame candidate: the written object is fresh since loop entry - or, second
+			// tier, at least allocated by the function the loop belongs to (so that what the
+			// caller handed in keeps its contents across the loop)
+			w := l.water
+			if ex.cfg.fnHavoc[fk] && l.frame != nil && l.frame.entryCtr != nil {
+				w = l.frame.entryCtr
+			}
+			goal := Implies(And(guard, Gt(n, Int(0))), Gt(ref, w))
 			o := &Obligation{Name: "frame:" + fk, Class: "frame", Fn: ex.curFn(), Goal: goal, NHyps: len(ex.hyps), Optional: true, CandKey: "frame|" + fk}
 			if goal.IsTrue() {
 				o.Status = "discharged"
@@ -378,17 +388,18 @@ func (P *Program) info(fn *ssa.Function) *fnInfo {
 // ---------- frames ----------
 
 type Frame struct {
-	fn      *ssa.Function
-	vals    map[ssa.Value]Value
-	edge    map[[2]int]*Term
-	reach   map[*ssa.BasicBlock]*Term
-	cur     *Term
-	rets    []retSite
-	info    *fnInfo
-	acts    map[*loopInfo]*loopAct
-	unrollK map[*loopInfo]int
-	done    map[*ssa.BasicBlock]bool
-	unr     map[*loopInfo]*unrollState
+	fn       *ssa.Function
+	vals     map[ssa.Value]Value
+	edge     map[[2]int]*Term
+	reach    map[*ssa.BasicBlock]*Term
+	cur      *Term
+	rets     []retSite
+	info     *fnInfo
+	acts     map[*loopInfo]*loopAct
+	unrollK  map[*loopInfo]int
+	done     map[*ssa.BasicBlock]bool
+	unr      map[*loopInfo]*unrollState
+	entryCtr *Term // allocation counter at entry: objects above it were allocated by this call
 }
 
 type unrollState struct {
@@ -432,7 +443,7 @@ func (ex *Exec) callFn(fn *ssa.Function, args []Value, reach *Term) (Value, *Ter
 	defer func() { ex.depth--; ex.fnStack = ex.fnStack[:len(ex.fnStack)-1] }()
 
 	f := &Frame{fn: fn, vals: map[ssa.Value]Value{}, edge: map[[2]int]*Term{}, reach: map[*ssa.BasicBlock]*Term{},
-		info: ex.P.info(fn), acts: map[*loopInfo]*loopAct{}}
+		info: ex.P.info(fn), acts: map[*loopInfo]*loopAct{}, entryCtr: ex.ctr()}
 	for i, p := range fn.Params {
 		f.vals[p] = args[i]
 	}
@@ -742,6 +753,9 @@ func (ex *Exec) loopHead(f *Frame, b *ssa.BasicBlock, lp *loopInfo, entry *Term)
 		var water *Term
 		if !ex.cfg.fullHavoc[key+"|"+kn] {
 			water = act.water
+			if ex.cfg.fnHavoc[key+"|"+kn] && f.entryCtr != nil {
+				water = f.entryCtr
+			}
 		}
 		ex.mem.Havoc(k, entry, water, c)
 	}
@@ -953,6 +967,17 @@ func (ex *Exec) loopCandidates(f *Frame, act *loopAct, phis []*ssa.Phi) []loopCa
 			out = append(out, loopCand{nm + ":len>=init", func(get func(*ssa.Phi) Value) *Term {
 				return Ge(get(p).(SliceV).Len, e.Len)
 			}})
+			out = append(out, loopCand{nm + ":array-fresh-or-init", func(get func(*ssa.Phi) Value) *Term {
+				s := get(p).(SliceV)
+				return Or(Gt(s.Arr, water), Eq(s.Arr, e.Arr))
+			}})
+			if f.entryCtr != nil {
+				own := f.entryCtr
+				out = append(out, loopCand{nm + ":array-allocated-by-this-call", func(get func(*ssa.Phi) Value) *Term {
+					s := get(p).(SliceV)
+					return Or(Eq(s.Arr, Int(0)), Gt(s.Arr, own))
+				}})
+			}
 		}
 	}
 	return out
